@@ -51,6 +51,37 @@ the fixed rules listed under "Semantic choices" below.
      head of `List.dropWhile (¬p)`; `it` continues behind the element taken; the else block must diverge.
    * Skipped: `use …;` inside bodies.
 
+4. Second growth (task TRAN2; job tables in translator/jobs2.py)
+   * Patterns (`pattern`, `subpattern`, `patterns`): unit variants of the job's `paths` (bare names only when listed in
+     `bare_variants`), tuple variants `P(x, _)` with payload bound by name / ignored / an `Option` pattern, struct variants
+     `P { f, g: <sub>, .. }` of a job-declared `variants` entry (Lean constructor + fields in constructor order; fields under
+     `..` are bound to `<f>_rest`), tuple patterns `(P, Q)`, `None`, `Some(<sub>)`; alternatives `P | Q` may bind names only
+     if every alternative binds the same names; match guards are rejected.
+   * `matches!(e, P | Q)` = `match e with | P | Q => true | _ => false`.
+   * `let x = match e { P => return r, …, Q(v) => value };` (`let_match`): `return` arms leave the function, exactly one arm
+     yields the value, the rest of the block is placed inside that arm (pattern names must not occur in it).
+   * `if let <pattern> = <expr> { … } [else { … }]` as a statement (`if_let`).
+   * `match X { … }` / `match (e, X) { … }` on a live mutable enum-valued variable X listed in `enum_vars` (a `&mut self`
+     method whose `self` is renamed by `places`): the fields a struct-variant arm names become mutable variables of the arm
+     (types from `field_types`), assigned through `*f = e` or `std::mem::swap(f, g)`, and the arm ends by rebuilding
+     X := Ctor fields…; an arm with alternatives is written once per alternative.
+   * `match X.as_mut() { Some(v) => v.m(args), None => X = e }` on a live mutable `Option` variable, `m` in `mut_methods`.
+   * `self.m(args);` for a `self_methods` entry, where the state of `self` is the variable `self_var`: X := m X args — also
+     as a brace-less match arm; `x.f = e` on a `struct_vars` variable: a record update; `X[a][b]` / `X[a][b] = e` on an
+     `index2` variable: the job's get / set templates; struct literals may list their fields in any order (pure fields).
+   * `for (i, x) in …`: the pair is unpacked at the head of the body; closure parameters may carry a type `|a: F|` that the job
+     maps in `type_names`; `translate_expr_after`: the pure expression following a header, e.g. the body of a closure bound by
+     `let cmp = |q, r| match … ;`; `translate_fn` on a header that ends in a closure's `|…| {` translates that closure body.
+   * accessors (no-argument methods) may be lists of (receiver pattern, template), like the whitelisted calls.
+   * `while cond { … break; … }` (`while_stmt`): `Gen.whileFuel FUEL cond body σ` (GeoModel/TRAN2Prelude.lean) with FUEL the
+     job's `while_fuel` expression; the job must set `option_wrap`: every normal result of the function is `some …` and an
+     exhausted bound is `none`, so a wrong bound cannot yield a wrong value (the tie theorem shows `none` never occurs).
+   * `P[i]` on a job-declared indexed place P of a mutable variable (`index1`: variable, get / set templates, methods of the
+     whole place such as `slice::swap`): reads through `get`; `P[i] = e;` and `P[i].m(args);` (m in `mut_methods`) write
+     through `set`.
+   * closure parameters may be tuple patterns `|(_, p), (_, q)|` (Lean's pattern-matching `fun`); `v[<expr>]` with a computed
+     index only under `unguarded_index: "total"`.
+
 Semantic choices (fixed rules; everything else is in the job tables of rs2lean.py, each with a comment there)
    * numbers are exact rationals (`Rat`; counters `Nat` / `Int` per job): no overflow, no rounding, no NaN — so
      `a.partial_cmp(&b)` is never `None` (`Gen.partialCmp?`), comparisons become `decide (…)`, integer `/` and `%` are only
@@ -63,6 +94,16 @@ Semantic choices (fixed rules; everything else is in the job tables of rs2lean.p
      `v.len() < n` / `v.is_empty()`, or the debug assertion above) and becomes `Gen.idx v k` whose default is unreachable.
    * `unreachable!()` arms take the value chosen by the job (dead code for the types concerned).
    * Rust identifiers that are reserved words of Lean get a trailing `_` (not field names after a `.`).
+   * `panic!(…)` as an arm or last statement takes the value chosen by the job (`panic`; a unit function: the current state);
+     the panic itself is not modelled (the harness reports panics).
+   * `T::from(<integer literal>).unwrap()` is the literal as a `Rat` (the conversion never fails).
+   * job option `unguarded_index: "total"`: `v[k]` is `Gen.idx v k` also where no guard dominates it syntactically (the
+     source's guard is semantic, e.g. "dimension is not Empty"); out-of-range panics are not modelled.
+   * job option `ord_key`: `< <= > >=` in this job compare values of a derive(Ord) enum by the named rank function.
+   * job option `rank_match_default`: the job encodes an enum by its rank (`Nat`), so an exhaustive Rust match gets a
+     catch-all arm in Lean that leaves the state unchanged (dead: every rank is one of the listed numerals).
+   * square roots (`Euclidean.distance`, `Euclidean.length`, `hypot`) are never computed: they are parameters of the
+     regenerated terms, and the tie theorems state what they assume about them.
 
 Numbers become `Rat`, comparisons `decide (…)`, so that the result is a computable Lean term which can be compared
 (`rfl` / `simp`) with the hand-written model.
@@ -118,6 +159,9 @@ class Parser:
         self.minlen = {}                                      # Vec term -> length lower bound established by a guard
         self.bound = set()                                    # names bound by let / closures / loops so far
         self.pending = None
+        self.pat_names = set()
+        self.pat_structs = []
+        self.pat_alts = []
 
     def peek(self, k=0):
         return self.t[self.i + k] if self.i + k < len(self.t) else ("eof", "")
@@ -141,6 +185,11 @@ class Parser:
         return "(" + term + ")" if term.startswith("let ") or term.startswith("if ") else term
 
     def stmts(self, tail=False):
+        if self.at("use"):
+            while not self.at(";"):
+                self.eat()
+            self.eat()
+            return self.stmts(tail)
         if self.at("let"):
             self.eat()
             if self.at("mut"):
@@ -200,19 +249,109 @@ class Parser:
             return self.match_expr(tail)
         return self.binary(0)
 
+    def subpattern(self):
+        """a pattern in field / payload position: `_`, a name (binds), `None`, `Some(<sub>)`, a unit variant of the job's paths"""
+        tk = self.eat()
+        if tk == ("id", "_"):
+            return "_"
+        if tk == ("id", "None"):
+            return "none"
+        if tk == ("id", "Some"):
+            self.eat("op", "(")
+            sub = self.subpattern()
+            self.eat("op", ")")
+            return "(some %s)" % sub
+        if tk[0] == "id" and tk[1] in self.paths and ("::" in tk[1] or tk[1] in self.opts.get("bare_variants", ())):
+            return self.paths[tk[1]]
+        if tk[0] == "id" and "::" not in tk[1] and tk[1] not in self.paths and not self.at("(") and not self.at("{"):
+            self.pat_names.add(tk[1])
+            return tk[1]
+        raise TranslateError("nested pattern outside the fragment: %s" % (tk,))
+
     def pattern(self):
         tk = self.eat()
         if tk == ("id", "_"):
             return "_"
-        if tk[0] == "id" and tk[1] in self.paths and "::" in tk[1]:
-            return self.paths[tk[1]]
+        if tk == ("op", "("):
+            # tuple pattern `(P, Q)` (the scrutinee is a tuple expression)
+            items = [self.pattern()]
+            while self.at(","):
+                self.eat(); items.append(self.pattern())
+            self.eat("op", ")")
+            return "(" + ", ".join(items) + ")"
+        variants = self.opts.get("variants", {})
+        if tk[0] == "id" and tk[1] in variants and self.at("{"):
+            # struct-variant pattern `Path { f, g: <sub>, .. }` of a job-declared variant (Lean constructor, fields in
+            # constructor order): a field written alone binds its name; fields covered by `..` are bound to `<f>_rest`
+            # (so that a `&mut` match can rebuild the value); without `..` every field must be written
+            ctor, fields = variants[tk[1]]
+            self.eat()
+            given, rest = {}, False
+            while not self.at("}"):
+                if self.at(".") and self.peek(1) == ("op", "."):
+                    self.eat(); self.eat(); rest = True
+                    if not self.at("}"):
+                        raise TranslateError("`..` must come last in a struct pattern")
+                    break
+                f = self.eat("id")[1]
+                if f not in fields or f in given:
+                    raise TranslateError("struct pattern %s: unexpected field %s" % (tk[1], f))
+                if self.at(":"):
+                    self.eat()
+                    given[f] = self.subpattern()
+                else:
+                    if f in self.paths:
+                        raise TranslateError("field name %s collides with a path of the job" % f)
+                    self.pat_names.add(f)
+                    given[f] = f
+                if self.at(","):
+                    self.eat()
+            self.eat("op", "}")
+            if not rest and set(given) != set(fields):
+                raise TranslateError("struct pattern %s: missing fields without `..`" % tk[1])
+            leans = [given.get(f, f + "_rest") for f in fields]
+            self.pat_structs.append((ctor, fields, leans, [f for f in fields if given.get(f) == f]))
+            return "%s %s" % (ctor, " ".join(leans))
+        if tk[0] == "id" and tk[1] in self.paths and ("::" in tk[1] or tk[1] in self.opts.get("bare_variants", ())):
+            ctor = self.paths[tk[1]]
+            if self.at("("):
+                # tuple-variant pattern `Path(a, _)`: the payload is bound by name, ignored, or an Option pattern
+                self.eat()
+                subs = []
+                while not self.at(")"):
+                    subs.append(self.subpattern())
+                    if self.at(","):
+                        self.eat()
+                self.eat("op", ")")
+                if not subs:
+                    raise TranslateError("empty payload pattern")
+                return "%s %s" % (ctor, " ".join(subs))
+            return ctor
+        if tk in (("id", "None"), ("id", "Some")):
+            self.i -= 1
+            return self.subpattern()
         raise TranslateError("pattern outside the fragment: %s" % (tk,))
 
+    def one_alternative(self):
+        """one alternative of an arm: (Lean pattern, names it binds, struct-variant patterns in it)"""
+        self.pat_names, self.pat_structs = set(), []
+        pat = self.pattern()
+        return pat, set(self.pat_names), list(self.pat_structs)
+
     def patterns(self):
-        pats = [self.pattern()]
+        """alternatives `P | Q`; the names bound are collected in `self.pat_names`. Alternatives may bind names only when
+        every alternative binds the same names (then Lean and Rust agree). Guards are outside the fragment."""
+        alts = [self.one_alternative()]
         while self.at("|"):
-            self.eat(); pats.append(self.pattern())
-        return " | ".join(pats)
+            self.eat(); alts.append(self.one_alternative())
+        if any(a[1] != alts[0][1] for a in alts):
+            raise TranslateError("alternative patterns that bind different names are outside the fragment")
+        if self.at("if"):
+            raise TranslateError("match guards are outside the fragment")
+        self.pat_names = set(alts[0][1])
+        self.pat_alts = alts
+        self.bound.update(self.pat_names)
+        return " | ".join(a[0] for a in alts)
 
     def skip_macro_args(self):
         """skip `!( … )` of a macro invocation whose arguments are not translated"""
@@ -232,6 +371,15 @@ class Parser:
             raise TranslateError("unreachable!() without a value chosen by the job")
         return self.opts["unreachable"]
 
+    def panic(self):
+        """`panic!(…)` as the value of an arm: the value chosen by the job (`panic`), the panic itself is not modelled
+        (the harness reports panics)"""
+        self.eat("id", "panic")
+        self.skip_macro_args()
+        if "panic" not in self.opts:
+            raise TranslateError("panic!() without a value chosen by the job")
+        return self.opts["panic"]
+
     def match_expr(self, tail=False):
         """`match e { P | Q => expr, … }` with enum-path patterns and pure arms"""
         self.eat("id", "match")
@@ -243,6 +391,8 @@ class Parser:
             self.eat("op", "=>")
             if self.at("unreachable"):
                 body = self.unreachable()
+            elif self.at("panic") and self.peek(1) == ("op", "!"):
+                body = self.panic()
             elif self.at("{"):
                 body = self.block(tail)
             else:
@@ -259,10 +409,32 @@ class Parser:
         """`|a, &b| body` (pure body) -> `(fun a b => body)`"""
         self.eat("op", "|")
         params = []
+        typed = []
         while not self.at("|"):
             if self.at("&"):
                 self.eat()
+            if self.at("("):
+                # a tuple parameter `(a, _)`: Lean's pattern-matching `fun (a, _) => …`
+                self.eat()
+                comps = [self.eat("id")[1]]
+                while self.at(","):
+                    self.eat(); comps.append(self.eat("id")[1])
+                self.eat("op", ")")
+                params.extend(c for c in comps if c != "_")
+                typed.append("(" + ", ".join(comps) + ")")
+                if self.at(","):
+                    self.eat()
+                continue
             params.append(self.eat("id")[1])
+            if self.at(":"):
+                # `|a: F|`: the parameter type, from the job's `type_names` (Rust type name -> Lean type)
+                self.eat()
+                ty = self.eat("id")[1]
+                if ty not in self.opts.get("type_names", {}):
+                    raise TranslateError("closure parameter type %s without a Lean type chosen by the job" % ty)
+                typed.append("(%s : %s)" % (params[-1], self.opts["type_names"][ty]))
+            else:
+                typed.append(params[-1])
             if self.at(","):
                 self.eat()
         self.eat("op", "|")
@@ -270,7 +442,7 @@ class Parser:
             raise TranslateError("closure without parameters")
         self.bound.update(params)
         body = self.expr(True)        # `return e` inside a closure body = the closure's value
-        return "(fun %s => %s)" % (" ".join(params), body)
+        return "(fun %s => %s)" % (" ".join(typed), body)
 
     LEVELS = [["||"], ["&&"], ["==", "!=", "<", "<=", ">", ">="], ["+", "-"], ["*", "/", "%"]]
 
@@ -282,6 +454,10 @@ class Parser:
             op = self.eat()[1]
             rhs = self.binary(lvl + 1)
             if op in ("<", "<=", ">", ">="):
+                k = self.opts.get("ord_key")
+                if k:
+                    # the job compares values of a derive(Ord) enum: by the rank function it names
+                    lhs, rhs = "(%s %s)" % (k, lhs), "(%s %s)" % (k, rhs)
                 lhs = "decide (%s %s %s)" % (lhs, {"<=": "≤", ">=": "≥"}.get(op, op), rhs)
                 lhs = "(" + lhs + ")"
             else:
@@ -311,6 +487,17 @@ class Parser:
         if "{" in tmpl:
             return tmpl.format(*(([recv] if recv is not None else []) + args))
         return "(%s %s)" % (tmpl, " ".join(([recv] if recv is not None else []) + args))
+
+    def accessor(self, name, recv):
+        """a no-argument method of the job's `accessors`: a template over the receiver, or — one method name on receivers of
+        different static types — a list of (receiver pattern, template), first match wins, no match is an error"""
+        tmpl = self.accessors[name]
+        if isinstance(tmpl, list):
+            for pat, t in tmpl:
+                if re.match(pat, recv):
+                    return t.format(recv)
+            raise TranslateError("no receiver pattern of the job matches %r for .%s()" % (recv, name))
+        return tmpl.format(recv)
 
     def args(self):
         """`( e, … )` with optional trailing comma"""
@@ -407,7 +594,7 @@ class Parser:
                     if self.peek(1) == ("op", ")"):
                         self.eat("op", "("); self.eat("op", ")")     # no-argument method = accessor
                         if name in self.accessors:
-                            e = self.accessors[name].format(e)
+                            e = self.accessor(name, e)
                         elif self.strict:
                             raise TranslateError("no-argument method outside the whitelist: .%s()" % name)
                         else:
@@ -419,6 +606,29 @@ class Parser:
                         e = self.call_template(self.funcs["." + name], e, args)
                 else:
                     e = "%s.%s" % (e, name)
+            elif self.at("[") and e in self.opts.get("index1", {}):
+                # `P[i]` on a job-declared indexed place P of a mutable variable: the job's `get` template over (variable, index)
+                ix1 = self.opts["index1"][e]
+                self.eat("op", "[")
+                i1 = self.expr()
+                self.eat("op", "]")
+                e = ix1["get"].format(ix1["var"], i1)
+            elif self.at("[") and e in self.opts.get("index2", {}):
+                # `X[a][b]` on a job-declared doubly indexed variable: the job's `get` template
+                idx = []
+                for _ in range(2):
+                    self.eat("op", "[")
+                    idx.append(self.expr())
+                    self.eat("op", "]")
+                e = self.opts["index2"][e]["get"].format(e, idx[0], idx[1])
+            elif self.at("[") and not (self.peek(1)[0] == "num" and self.peek(2) == ("op", "]")):
+                # `v[<expr>]` with a computed index: only with the job's explicit choice `unguarded_index: "total"`
+                if self.opts.get("unguarded_index") != "total" or e in self.arrays:
+                    raise TranslateError("computed index outside the fragment")
+                self.eat()
+                ix = self.expr()
+                self.eat("op", "]")
+                e = "(Gen.idx %s %s)" % (e, ix)
             elif self.at("["):
                 self.eat()
                 n = self.eat("num")[1]
@@ -429,6 +639,10 @@ class Parser:
                     e = self.arrays[e][int(n)]
                 elif self.minlen.get(e, 0) > int(n):
                     e = "(Gen.idx %s %s)" % (e, n)     # Vec index dominated by a length guard
+                elif self.opts.get("unguarded_index") == "total":
+                    # explicit choice of the job: `v[k]` is the total `Gen.idx` also where no guard dominates it syntactically
+                    # (the out-of-range panic is not modelled; the harness reports panics), cf. `Option::unwrap`
+                    e = "(Gen.idx %s %s)" % (e, n)
                 else:
                     e = "%s⟦%s⟧" % (e, n)          # constant index; resolved by the caller's substitutions
             elif self.at("as"):
@@ -462,6 +676,14 @@ class Parser:
             return "(" + ", ".join(items) + ")"
         if tk == ("id", "unreachable") and self.peek(1) == ("op", "!"):
             return self.unreachable()
+        if tk == ("id", "matches") and self.peek(1) == ("op", "!"):
+            # `matches!(e, P | Q)` (no guard) = `match e with | P | Q => true | _ => false`
+            self.eat(); self.eat(); self.eat("op", "(")
+            e = self.expr()
+            self.eat("op", ",")
+            pats = self.patterns()
+            self.eat("op", ")")
+            return "(match %s with | %s => true | _ => false)" % (e, pats)
         if tk[0] == "id":
             self.eat()
             name = tk[1]
@@ -473,22 +695,38 @@ class Parser:
                     raise TranslateError("coord! outside the fragment")
             if name in self.structs and self.at("{"):
                 # struct literal `Name { f: e, … }`: fields must come in the declared order
+                # (field expressions are pure, so their order in the literal does not matter: every declared field exactly once)
                 self.eat()
-                vals = []
-                for f in self.structs[name][1]:
-                    self.eat("id", f)
+                given = {}
+                while not self.at("}"):
+                    f = self.eat("id")[1]
+                    if f not in self.structs[name][1] or f in given:
+                        raise TranslateError("struct literal %s: unexpected field %s" % (name, f))
                     if self.at(":"):
                         self.eat("op", ":")
-                        vals.append(self.expr())
+                        given[f] = self.expr()
                     else:
-                        vals.append(f)             # field init shorthand `Name { f, … }`
+                        given[f] = f               # field init shorthand `Name { f, … }`
                     if self.at(","):
                         self.eat()
+                    elif not self.at("}"):
+                        raise TranslateError("struct literal %s: expected , or }" % name)
                 self.eat("op", "}")
-                return "(%s %s)" % (self.structs[name][0], " ".join(vals))
+                if set(given) != set(self.structs[name][1]):
+                    raise TranslateError("struct literal %s: missing fields" % name)
+                return "(%s %s)" % (self.structs[name][0], " ".join(given[f] for f in self.structs[name][1]))
             if name == "T::from" and self.at("("):
-                # `T::from(x)?` with x : T — the identity conversion (never fails); only accepted with the `?`
+                # `T::from(x)?` with x : T — the identity conversion (never fails); only accepted with the `?`;
+                # `T::from(<integer literal>).unwrap()` — the literal as a number of the model (never `None`)
                 self.eat()
+                if self.peek()[0] == "num" and self.peek(1) == ("op", ")") and self.peek(2) == ("op", ".") \
+                        and self.peek(3) == ("id", "unwrap") and self.peek(4) == ("op", "(") and self.peek(5) == ("op", ")"):
+                    lit = self.eat()[1]
+                    for _ in range(5):
+                        self.eat()
+                    if "." in lit:
+                        raise TranslateError("T::from of a non-integer literal")
+                    return "(%s : Rat)" % lit
                 e = self.expr()
                 self.eat("op", ")")
                 self.eat("op", "?")
@@ -687,6 +925,7 @@ class Env:
 
     def with_(self, **kw):
         e = Env(self.muts, self.cont, self.tail, self.retraw, self.ty)
+        e.brk = getattr(self, "brk", None)
         for k, v in kw.items():
             setattr(e, k, v)
         return e
@@ -742,7 +981,8 @@ class StmtParser(Parser):
         return term
 
     def unit_value(self):
-        return "(%s %s)" % (self.opts["ret_ctor"], " ".join(n for n, _ in self.opts["muts"]))
+        v = "(%s %s)" % (self.opts["ret_ctor"], " ".join(n for n, _ in self.opts["muts"]))
+        return "(some %s)" % v if self.opts.get("option_wrap") else v
 
     def fn_value(self, v):
         """the function result for `return v;` / `return;`"""
@@ -754,7 +994,7 @@ class StmtParser(Parser):
             raise TranslateError("`return;` in a function with a result")
         if self.fn_both:
             return "(%s, %s)" % (self.unit_value(), v)
-        return v
+        return "(some %s)" % v if self.opts.get("option_wrap") else v
 
     # ---- blocks
     def sblock(self, env):
@@ -816,10 +1056,26 @@ class StmtParser(Parser):
             if not (self.at("}") or self.at(",")):
                 raise TranslateError("statements after `return`")
             return env.retraw(self.fn_value(v))
+        if self.at("panic") and self.peek(1) == ("op", "!"):
+            # `panic!(…);` ends the function: with the value chosen by the job (a unit function: the current state)
+            v = self.panic()
+            if self.at(";"):
+                self.eat()
+            if not (self.at("}") or self.at(",")):
+                raise TranslateError("statements after `panic!`")
+            return env.retraw(self.unit_value() if self.fn_unit else v)
         if self.at("if"):
             return self.branch_stmt(env, self.skip_if_chain, self.if_chain)
         if self.at("match"):
             return self.branch_stmt(env, self.skip_match, self.match_chain)
+        if self.at("while"):
+            return self.while_stmt(env)
+        if self.at("break") and getattr(env, "brk", None) is not None:
+            self.eat()
+            self.end_of_stmt()
+            if not (self.at("}") or self.at(",")):
+                raise TranslateError("statements after `break`")
+            return env.brk
         if self.at("for"):
             return self.for_stmt(env)
         a = self.try_assign(env)
@@ -874,9 +1130,79 @@ class StmtParser(Parser):
             self.eat()
         return f, x
 
+    def self_method(self, env):
+        """`self.m(args)` for a job-listed `&mut self` method (`self_methods`: name -> Lean function of the state and the
+        arguments) where the state of `self` is the live mutable variable `self_var`: returns the new value of that variable"""
+        sm = self.opts.get("self_methods", {})
+        sv = self.opts.get("self_var")
+        if not (sv and self.peek() == ("id", "self") and self.peek(1) == ("op", ".") and self.peek(2)[0] == "id"
+                and self.peek(2)[1] in sm and self.peek(3) == ("op", "(")):
+            return None
+        if sv not in env.names():
+            raise TranslateError("self method call where %s is not live" % sv)
+        m = self.peek(2)[1]
+        for _ in range(3):
+            self.eat()
+        args = self.args()
+        fn = sm[m]
+        self.forget_len(sv)
+        return sv, (fn.format(sv, *args) if "{" in fn else "(%s %s)" % (fn, " ".join([sv] + args)))
+
     def mut_method(self, env):
         """statements that update one live mutable variable in place: `X.push(e);`, `X.m(args);` for a job-listed method,
-        `f(&mut X);` for a closure parameter"""
+        `f(&mut X);` for a closure parameter, `self.m(args);` for a job-listed method of `&mut self`"""
+        sm = self.self_method(env)
+        if sm is not None:
+            self.end_of_stmt()
+            return "let %s := %s\n%s" % (sm[0], sm[1], self.sstmts(env))
+        ix1 = self.opts.get("index1", {}).get(self.peek()[1]) if self.peek()[0] == "id" else None
+        if ix1 is not None and ix1["var"] in env.names():
+            var = ix1["var"]
+            save = self.i
+            self.eat()
+            if self.at("["):
+                # `P[i].m(args);` (m in `mut_methods`: new element from the old one) and `P[i] = e;`
+                self.eat()
+                i1 = self.expr()
+                self.eat("op", "]")
+                if self.at("=") :
+                    self.eat()
+                    val = self.expr()
+                elif self.at(".") and self.peek(1)[0] == "id" and self.peek(1)[1] in self.opts.get("mut_methods", {}) and self.peek(2) == ("op", "("):
+                    self.eat()
+                    m = self.eat()[1]
+                    args = self.args()
+                    fn = self.opts["mut_methods"][m]
+                    old_el = ix1["get"].format(var, i1)
+                    val = fn.format(old_el, *args) if "{" in fn else "(%s %s)" % (fn, " ".join([old_el] + args))
+                else:
+                    self.i = save
+                    val = None
+                if val is not None:
+                    self.end_of_stmt()
+                    self.forget_len(var)
+                    return "let %s := %s\n%s" % (var, ix1["set"].format(var, i1, val), self.sstmts(env))
+            elif (self.at(".") and self.peek(1)[0] == "id" and self.peek(1)[1] in ix1.get("methods", {}) and self.peek(2) == ("op", "(")):
+                # `P.m(args);` for a method of the whole place listed by the job (`slice::swap`): template over (variable, args…)
+                self.eat()
+                m = self.eat()[1]
+                args = self.args()
+                self.end_of_stmt()
+                self.forget_len(var)
+                return "let %s := %s\n%s" % (var, ix1["methods"][m].format(var, *args), self.sstmts(env))
+            else:
+                self.i = save
+        if (self.peek() == ("id", "std::mem::swap") and self.peek(1) == ("op", "(") and self.peek(2)[0] == "id"
+                and self.peek(3) == ("op", ",") and self.peek(4)[0] == "id" and self.peek(5) == ("op", ")")):
+            # `std::mem::swap(a, b);` on two live mutable variables (here: `&mut` bindings of a pattern)
+            x, y = self.peek(2)[1], self.peek(4)[1]
+            if x not in env.names() or y not in env.names() or x == y:
+                raise TranslateError("std::mem::swap on something that is not a pair of live mutable variables")
+            for _ in range(6):
+                self.eat()
+            self.end_of_stmt()
+            t = self.gensym("swap")
+            return "let %s := %s\nlet %s := %s\nlet %s := %s\n%s" % (t, x, x, y, y, t, self.sstmts(env))
         c = self.closure_param_call(env)
         if c is not None:
             f, x = c
@@ -919,6 +1245,29 @@ class StmtParser(Parser):
             return None
         nxt = self.t[j + 1] if j + 1 < len(self.t) else ("eof", "")
         nxt2 = self.t[j + 2] if j + 2 < len(self.t) else ("eof", "")
+        ix = self.opts.get("index2", {}).get(tk[1])
+        if ix and j == self.i and nxt == ("op", "["):
+            # `X[a][b] = e` on a job-declared doubly indexed mutable variable: the job's `set` template
+            save = self.i
+            self.i = j + 1
+            idx = []
+            for _ in range(2):
+                self.eat("op", "[")
+                idx.append(self.expr())
+                self.eat("op", "]")
+            if not self.at("="):
+                self.i = save
+                return None
+            self.eat()
+            e = self.expr()
+            return tk[1], ix["set"].format(tk[1], idx[0], idx[1], e)
+        sv = self.opts.get("struct_vars", {}).get(tk[1])
+        if (sv and j == self.i and nxt == ("op", ".") and nxt2[0] == "id" and nxt2[1] in sv
+                and j + 3 < len(self.t) and self.t[j + 3] == ("op", "=")):
+            # `x.f = e` on a struct-valued mutable variable (job: `struct_vars` x -> {Rust field: Lean field}): a record update
+            self.i = j + 4
+            e = self.expr()
+            return tk[1], "{ %s with %s := %s }" % (tk[1], sv[nxt2[1]], e)
         if nxt == ("op", "="):
             self.i = j + 2
             e = self.expr()
@@ -976,6 +1325,8 @@ class StmtParser(Parser):
             self.check_fresh(env, names)
             return ("let %s := (%s %s)\nlet %s := %s\nlet %s := %s\n%s"
                     % (r, f, x, pat, spec["value"].format(r=r, x=x), x, spec["state"].format(r=r, x=x), self.sstmts(env)))
+        if self.at("match"):
+            return self.let_match(env, names, pat)
         e = self.expr()
         if e == "⟪ARRAYMAP⟫":
             if len(names) != 1:
@@ -984,6 +1335,45 @@ class StmtParser(Parser):
         self.eat("op", ";")
         self.check_fresh(env, names)
         return "let %s := %s\n%s" % (pat, e, self.sstmts(env))
+
+    def let_match(self, env, names, pat):
+        """`let x = match e { P => return r, …, Q(v) => value };` — arms that `return` leave the function, exactly one arm
+        yields the value; the code after the statement is placed inside that arm (names bound by its pattern must not
+        occur in that code, checked on the tokens)"""
+        self.eat("id", "match")
+        scrut = self.expr()
+        self.eat("op", "{")
+        arms, value_arms, bound_here = [], 0, set()
+        mark = "⟪LETMATCH⟫"
+        while not self.at("}"):
+            pats = self.patterns()
+            self.check_fresh(env, self.pat_names)
+            bound_here |= self.pat_names
+            self.eat("op", "=>")
+            if self.at("return"):
+                self.eat()
+                v = None if (self.at(",") or self.at("}")) else self.expr()
+                body = env.retraw(self.fn_value(v))
+            elif self.at("unreachable"):
+                v = self.unreachable()
+                body = env.retraw(self.unit_value() if self.fn_unit else v)
+            else:
+                v = self.block() if self.at("{") else self.expr()
+                body = "let %s := %s\n%s" % (pat, v, mark)
+                value_arms += 1
+            if self.at(","):
+                self.eat()
+            arms.append("\n  | %s => %s" % (pats, par(body)))
+        self.eat("op", "}")
+        self.eat("op", ";")
+        if value_arms != 1:
+            raise TranslateError("let-match with %d value arms is outside the fragment" % value_arms)
+        self.check_fresh(env, names)
+        start = self.i
+        rest = self.sstmts(env)
+        if self.names_in(bound_here - set(names), start, self.i):
+            raise TranslateError("a name bound by a pattern of the let-match is used after it")
+        return ("(match %s with%s)" % (scrut, "".join(arms))).replace(mark, par(rest))
 
     def let_else(self, env):
         """`let Some(x) = it.next() else { … return …; };` and `let Some(x) = it.find(|v| pred) else { … };` on a live mutable
@@ -1151,9 +1541,30 @@ class StmtParser(Parser):
             return {}, {m.group(1): 1}
         return {}, {}
 
+    def if_let(self, env):
+        """`if let <pattern> = <expr> { … } [else { … }]` (pattern: Some / None / tuple / variant patterns, no guards)"""
+        self.eat("id", "let")
+        pat, names, _ = self.one_alternative()
+        self.check_fresh(env, names)
+        self.bound.update(names)
+        self.eat("op", "=")
+        scrut = self.expr()
+        a = self.sblock(env)
+        if self.at("else"):
+            self.eat()
+            b = self.if_chain(env) if self.at("if") else self.sblock(env)
+        else:
+            if env.cont is None:
+                raise TranslateError("`if let` without `else` where a value is required")
+            b = env.cont
+        self.rest_facts = {}
+        return "(match %s with\n  | %s => %s\n  | _ => %s)" % (scrut, pat, par(a), par(b))
+
     def if_chain(self, env):
         self.rest_facts = {}
         self.eat("id", "if")
+        if self.at("let"):
+            return self.if_let(env)
         c = self.expr()
         inside, after = self.len_facts(c)
         saved = dict(self.minlen)
@@ -1171,29 +1582,104 @@ class StmtParser(Parser):
             self.rest_facts = after if (env.cont == PH and PH not in a) else {}
         return "(if %s then %s else %s)" % (c, par(a), par(b))
 
+    def match_as_mut(self, env):
+        """`match X.as_mut() { Some(v) => v.m(args), None => X = e, }` on a live mutable variable X : Option τ, `m` a job-listed
+        `mut_methods` entry (a function of the old payload and the arguments giving the new payload): the `Some` arm updates
+        the payload in place through the alias `v`, the `None` arm assigns X. Arms in either order, nothing else."""
+        x = self.peek(1)[1]
+        for _ in range(6):
+            self.eat()
+        self.eat("op", "{")
+        some_arm = none_arm = None
+        while not self.at("}"):
+            if self.at("Some"):
+                self.eat(); self.eat("op", "(")
+                v = self.eat("id")[1]
+                self.eat("op", ")"); self.eat("op", "=>")
+                self.check_fresh(env, [v])
+                self.eat("id", v); self.eat("op", ".")
+                m = self.eat("id")[1]
+                if m not in self.opts.get("mut_methods", {}):
+                    raise TranslateError("method on a mutable alias outside the whitelist: .%s" % m)
+                args = self.args()
+                fn = self.opts["mut_methods"][m]
+                val = fn.format(v, *args) if "{" in fn else "(%s %s)" % (fn, " ".join([v] + args))
+                some_arm = "\n  | some %s => (let %s := some %s\n%s)" % (v, x, val, env.cont)
+            elif self.at("None"):
+                self.eat(); self.eat("op", "=>")
+                a = self.try_assign(env)
+                if a is None or a[0] != x:
+                    raise TranslateError("the None arm of match %s.as_mut() must assign %s" % (x, x))
+                none_arm = "\n  | none => (let %s := %s\n%s)" % (x, a[1], env.cont)
+            else:
+                raise TranslateError("match on as_mut(): arm outside the fragment")
+            if self.at(","):
+                self.eat()
+        self.eat("op", "}")
+        self.rest_facts = {}
+        if some_arm is None or none_arm is None or env.cont is None:
+            raise TranslateError("match on as_mut() outside the fragment")
+        self.forget_len(x)
+        return "(match %s with%s%s)" % (x, some_arm, none_arm)
+
     def match_chain(self, env):
+        if (self.peek(1)[0] == "id" and self.peek(1)[1] in env.names() and self.peek(2) == ("op", ".")
+                and self.peek(3) == ("id", "as_mut") and self.peek(4) == ("op", "(") and self.peek(5) == ("op", ")")
+                and self.peek(6) == ("op", "{")):
+            return self.match_as_mut(env)
         self.eat("id", "match")
         scrut = self.expr()
         self.eat("op", "{")
+        # a live mutable enum-valued variable matched by `&mut` (job: `enum_vars`), alone or as last component of a tuple:
+        # struct-variant patterns then bind its fields as mutable variables of the arm and the arm ends by rebuilding it
+        ev = None
+        for v in self.opts.get("enum_vars", ()):
+            if v in env.names() and (scrut == v or re.match(r"^\(.*, %s\)$" % re.escape(v), scrut)):
+                ev = v
         arms = []
         while not self.at("}"):
-            pats = self.patterns()
+            self.patterns()
+            alts = self.pat_alts
+            self.check_fresh(env, self.pat_names)
             self.eat("op", "=>")
-            if self.at("unreachable"):
-                # a diverging arm: modelled as `return <value chosen by the job>` (for a unit function: the current state)
-                v = self.unreachable()
-                body = env.retraw(self.unit_value() if self.fn_unit else v)
-            elif self.at("{"):
-                body = self.sblock(env)
-            else:
-                body = self.arm_stmt(env)
+            body_start = self.i
+            rebuild = ev is not None and any(a[2] for a in alts)
+            groups = [[a] for a in alts] if rebuild else [alts]      # an arm that rebuilds is written once per alternative
+            for g in groups:
+                self.i = body_start
+                aenv = env
+                if rebuild:
+                    if len(g[0][2]) != 1:
+                        raise TranslateError("an arm on %s with %d struct patterns" % (ev, len(g[0][2])))
+                    ctor, fields, leans, bound = g[0][2][0]
+                    ftypes = self.opts.get("field_types", {})
+                    for f in bound:
+                        if f not in ftypes:
+                            raise TranslateError("field %s without a type chosen by the job" % f)
+                    cont = None if env.cont is None else "let %s := (%s %s)\n%s" % (ev, ctor, " ".join(leans), env.cont)
+                    aenv = env.with_(muts=env.muts + [(f, ftypes[f]) for f in bound], cont=cont)
+                if self.at("unreachable"):
+                    # a diverging arm: modelled as `return <value chosen by the job>` (for a unit function: the current state)
+                    v = self.unreachable()
+                    body = env.retraw(self.unit_value() if self.fn_unit else v)
+                elif self.at("panic") and self.peek(1) == ("op", "!"):
+                    v = self.panic()
+                    body = env.retraw(self.unit_value() if self.fn_unit else v)
+                elif self.at("{"):
+                    body = self.sblock(aenv)
+                else:
+                    body = self.arm_stmt(aenv)
+                arms.append("\n  | %s => %s" % (" | ".join(a[0] for a in g), par(body)))
             if self.at(","):
                 self.eat()
-            arms.append("\n  | %s => %s" % (pats, par(body)))
         self.eat("op", "}")
         self.rest_facts = {}
         if not arms:
             raise TranslateError("empty match")
+        if self.opts.get("rank_match_default") and self.fn_unit and not any(a.startswith("\n  | _ =>") for a in arms):
+            # the job encodes an enum by its rank (a `Nat`): Rust's exhaustive match over the variants needs a catch-all arm
+            # in Lean; it is dead code (every rank is one of the listed numerals) and leaves the state unchanged
+            arms.append("\n  | _ => %s" % env.retraw(self.unit_value()))
         return "(match %s with%s)" % (scrut, "".join(arms))
 
     def arm_stmt(self, env):
@@ -1202,7 +1688,7 @@ class StmtParser(Parser):
             self.eat()
             v = None if (self.at(",") or self.at("}")) else self.expr()
             return env.retraw(self.fn_value(v))
-        a = self.try_assign(env)
+        a = self.self_method(env) or self.try_assign(env)
         if a is not None:
             if env.cont is None:
                 raise TranslateError("assignment arm where a value is required")
@@ -1213,11 +1699,54 @@ class StmtParser(Parser):
         return env.tail(e)
 
     # ---- loops
+    def while_stmt(self, env):
+        """`while cond { body }` with `break` / `return` in the body: `Gen.whileFuel FUEL cond body σ` over the live mutable
+        variables σ, FUEL = the job's `while_fuel` expression over them (an upper bound of the number of iterations that the
+        job claims; when it is exhausted the whole function answers `none` — the job must set `option_wrap`, every normal
+        result is `some …` — so a wrong bound cannot produce a wrong value, and the tie theorem shows `none` never occurs)"""
+        if not self.opts.get("option_wrap") or "while_fuel" not in self.opts:
+            raise TranslateError("`while` needs the job options while_fuel and option_wrap")
+        self.eat("id", "while")
+        c = self.expr()
+        names = env.names()
+        n = len(names)
+        if n == 0:
+            raise TranslateError("`while` without mutable state")
+        sigma = " × ".join(t for _, t in env.muts)
+        tup = "(" + ", ".join(names) + ")" if n != 1 else names[0]
+        s = self.gensym("w")
+
+        def unpack(sv):
+            return "".join("let %s := %s\n" % (nm, proj(sv, i, n)) for i, nm in enumerate(names))
+        rho = self.opts["ret_type"]
+        benv = Env(env.muts, "(Gen.WStep.cont %s)" % tup, None, lambda v: "(Gen.WStep.ret %s)" % v,
+                   "Gen.WStep (%s) (%s)" % (sigma, rho))
+        benv.brk = "(Gen.WStep.brk %s)" % tup
+        body = self.sblock(benv)
+        rest = self.sstmts(env)
+        r = self.gensym("r")
+        return ("(match Gen.whileFuel (σ := %s) (ρ := %s) (%s) (fun (%s : %s) =>\n%s%s) (fun (%s : %s) =>\n%s%s) %s with\n"
+                "  | none => none\n  | some (.ret %s) => %s\n  | some (.next %s) =>\n%s%s)"
+                % (sigma, rho, self.opts["while_fuel"], s, sigma, unpack(s), c, s, sigma, unpack(s), body, tup,
+                   r, env.retraw(r), s, unpack(s), rest))
+
     def for_stmt(self, env):
         self.eat("id", "for")
         if self.at("&"):
             self.eat()
-        x = self.eat("id")[1]
+        unpack_x = ""
+        if self.at("("):
+            # `for (i, x) in …`: the element is a pair, its components are bound at the head of the body
+            self.eat()
+            comps = [self.eat("id")[1]]
+            while self.at(","):
+                self.eat(); comps.append(self.eat("id")[1])
+            self.eat("op", ")")
+            self.check_fresh(env, comps)
+            x = self.gensym("elem")
+            unpack_x = "".join("let %s := %s\n" % (c, proj(x, i, len(comps))) for i, c in enumerate(comps))
+        else:
+            x = self.eat("id")[1]
         self.eat("id", "in")
         if (self.at("&") and self.peek(1) == ("id", "mut") and self.peek(2)[0] == "id" and self.peek(2)[1] in env.names()
                 and self.peek(3) == ("op", "{")):
@@ -1253,8 +1782,8 @@ class StmtParser(Parser):
             tup = "()"
         s = self.gensym("s")
 
-        def unpack(sv):
-            return "".join("let %s := %s\n" % (nm, proj(sv, i, n)) for i, nm in enumerate(names))
+        def unpack(sv, head=True):
+            return "".join("let %s := %s\n" % (nm, proj(sv, i, n)) for i, nm in enumerate(names)) + (unpack_x if head else "")
         rho = self.opts["ret_type"]
         if has_ret:
             ty = "Gen.Step (%s) (%s)" % (sigma, rho)
@@ -1266,9 +1795,9 @@ class StmtParser(Parser):
         if has_ret:
             r = self.gensym("r")
             return ("(match Gen.loop (σ := %s) (ρ := %s) %s (fun %s (%s : %s) =>\n%s%s) %s with\n  | .ret %s => %s\n  | .next %s =>\n%s%s)"
-                    % (sigma, rho, it, x, s, sigma, unpack(s), body, tup, r, env.retraw(r), s, unpack(s), rest))
-        return ("let %s := List.foldl (fun (%s : %s) %s =>\n%s%s) %s %s\n%s%s"
-                % (s, s, sigma, x, unpack(s), body, tup, it, unpack(s), rest))
+                    % (sigma, rho, it, x, s, sigma, unpack(s), body, tup, r, env.retraw(r), s, unpack(s, False), rest))
+        return ("let %s := (List.foldl (fun (%s : %s) %s =>\n%s%s) %s %s)\n%s%s"
+                % (s, s, sigma, x, unpack(s), body, tup, it, unpack(s, False), rest))
 
 
 def apply_subst(term, subst, resub):
@@ -1301,6 +1830,35 @@ def translate_fn(src, header_regex, paths, funcs, subst, structs=None, resub=(),
         toks = out
     p = StmtParser(toks, paths, funcs, structs, opts)
     term = p.function()
+    return indent(apply_subst(term, subst, resub))
+
+
+def translate_expr_after(src, header_regex, paths, funcs, subst, structs=None, resub=(), opts=None):
+    """the pure expression that follows the text matched by `header_regex` (e.g. the body of a closure bound by
+    `let cmp = |q, r| <expr>;`), up to the `;` or `,` that ends it at bracket depth 0"""
+    m = re.search(header_regex, src, flags=re.S)
+    if not m:
+        raise TranslateError("expression not found: /%s/" % header_regex)
+    depth, j = 0, m.end()
+    while j < len(src):
+        c = src[j]
+        if c in "({[":
+            depth += 1
+        elif c in ")}]":
+            depth -= 1
+            if depth < 0:
+                break
+        elif c in ";," and depth == 0:
+            break
+        j += 1
+    else:
+        raise TranslateError("unterminated expression after /%s/" % header_regex)
+    o = dict(opts or {})
+    o.setdefault("strict", True)
+    p = Parser(tokenize(src[m.end():j]), paths, funcs, structs, o)
+    term = p.expr(True)
+    if p.peek()[0] != "eof":
+        raise TranslateError("trailing tokens after the expression: %s" % (p.peek(),))
     return indent(apply_subst(term, subst, resub))
 
 
